@@ -257,6 +257,15 @@ def main():
         if len(viols) <= 3 and len(sdata["ops"]) > 1:
             small = ddmin(list(sdata["ops"]), test, max_tests=12)
             data["data"] = dict(sdata, ops=small)
+        elif len(viols) <= 3 and sdata.get("directed") and len(w.get("history") or []) > 1:
+            # directed subject: minimise the history (the discarded calls) instead
+
+            def test_h(hist, data=data):
+                dd = dict(data)
+                dd["world_b"] = dict(data["world_b"], history=hist)
+                return bool(worlds.replay(dd).get("violation"))
+
+            data["world_b"] = dict(w, history=ddmin(list(w["history"]), test_h, max_tests=8))
         path = common.write_replay(PROP, str(rs), data)
         okc, out = common.confirm_replay_fresh(path, "transcript-differs", timeout=900)
         if not okc:
